@@ -54,6 +54,22 @@ end
 def scopeStacks (li : LangInfo) (t : Tree) (n : Nat) : Array (List Nat) :=
   fillTree li t 0 0 true [] (Array.replicate n [])
 
+mutual
+  /-- Mark the bytes that lie inside a leaf's own extent (not padding). -/
+  def leafTree (t : Tree) (pos : Nat) (arr : Array (List Nat)) : Array (List Nat) :=
+    match t with
+    | .mk d kids =>
+      let start := pos + d.padding.bytes
+      if kids.isEmpty then fillRange arr start (start + d.size.bytes) [1] else leafKids kids pos arr
+  def leafKids (kids : List Tree) (pos : Nat) (arr : Array (List Nat)) : Array (List Nat) :=
+    match kids with
+    | [] => arr
+    | c :: rest => leafKids rest (pos + c.totalBytes) (leafTree c pos arr)
+end
+
+/-- `[1]` for bytes inside some token, `[]` for padding (white space, excluded text) and bytes outside the tree. -/
+def leafMask (t : Tree) (n : Nat) : Array (List Nat) := leafTree t 0 (Array.replicate n [])
+
 def covered (rs : List TSRange) (p : Nat) : Bool := rs.any (fun r => r.start_byte ≤ p && p < r.end_byte)
 
 /-- Sorted and disjoint, in bytes and in points; every range well formed. -/
@@ -68,9 +84,11 @@ structure Verdict where
   fail : Option String := none
   diffBytes : Nat := 0
   uncovered : Nat := 0
+  uncoveredInToken : Nat := 0   -- uncovered differing bytes that lie inside a token of the old or the new tree
   coveredSame : Nat := 0     -- reported bytes whose stacks are equal (over-approximation, allowed)
+  uncoveredBytes : List Nat := []
 
-def firstUncovered (so sn : Array (List Nat)) (rs : List TSRange) (n : Nat) : Verdict := Id.run do
+def firstUncovered (so sn mo mn : Array (List Nat)) (rs : List TSRange) (n : Nat) : Verdict := Id.run do
   let mut v : Verdict := {}
   for p in [0:n] do
     let a := so.getD p []
@@ -78,7 +96,8 @@ def firstUncovered (so sn : Array (List Nat)) (rs : List TSRange) (n : Nat) : Ve
     if a != b then
       v := { v with diffBytes := v.diffBytes + 1 }
       if !covered rs p then
-        v := { v with uncovered := v.uncovered + 1 }
+        v := { v with uncovered := v.uncovered + 1, uncoveredBytes := if v.uncovered < 16 then v.uncoveredBytes ++ [p] else v.uncoveredBytes,
+                      uncoveredInToken := v.uncoveredInToken + (if mo.getD p [] != [] || mn.getD p [] != [] then 1 else 0) }
         if v.fail.isNone then
           v := { v with fail := some s!"byte {p}: stacks differ (old {a} new {b}) but no reported range contains it" }
     else if covered rs p then
@@ -89,7 +108,7 @@ def judgeChanged (li : LangInfo) (old new : TreeDump) (reported : List TSRange) 
   let n := max docLen (max old.root.totalBytes new.root.totalBytes)
   let so := scopeStacks li old.root n
   let sn := scopeStacks li new.root n
-  let v := firstUncovered so sn reported n
+  let v := firstUncovered so sn (leafMask old.root n) (leafMask new.root n) reported n
   if !rangesOrdered reported then { v with fail := some "reported ranges are not sorted/disjoint" }
   else if reported.any (fun r => r.end_byte > docLen) then
     { v with fail := some s!"a reported range ends after the document (length {docLen})" }
